@@ -885,3 +885,16 @@ def _guarded_by_point_check(ctx: Ctx, caller: Func, call: ast.Call, fld: str) ->
     return False, "call is not guarded by a comparison of the cached point with the requested point: gradients would be combined with function values of another point"
 
 
+
+
+@rule(P)
+def c07_6(ctx: Ctx) -> RuleResult:
+    """Shared with C03.5: the combined (speculative) evaluation and the split one compute a gradient with the
+    same failure flags and weights, so the value for x does not depend on which request came first."""
+    from .c03 import c03_5
+
+    r = c03_5(ctx)
+    for i in r.instances:
+        i.rule = "C07.6"
+    r.rule, r.title = "C07.6", "combined and separate function/gradient evaluations use the same failure flags and weights for the gradient"
+    return r
